@@ -45,7 +45,8 @@ Prefixes ==
       \* a collection is dropped through one handle, another one is created, the other handle still holds the old one
       <<o("h1", "A", "mem"), o("h2", "A", "mem"), w("h2", "c1"), drop("h1"), w("h1", "c2"), w("h2", "c1"), w("h1", "c2")>>,
       <<o("h1", "A", "d1"), o("h2", "A", "d1"), w("h2", "c1"), w("h1", "c1"), drop("h2"), w("h2", "c2"), w("h1", "c1")>> }
-GenInit == \E pre \in {RandomElement(Prefixes)} :
+(* every prefix is an initial state: the simulator picks one of them for each behaviour *)
+GenInit == \E pre \in Prefixes :
               /\ S = ApplySeq(Init0, pre, 1) /\ steps = Len(pre)
               /\ hist = [i \in 1..Len(pre) |-> [pre[i] EXCEPT !.id = i]]
               /\ pick = Act("-", "h1", "-", "-", "-", "-", "-", "-")
